@@ -119,6 +119,26 @@ def blteOf (cd : Codec) (data : Bytes) (mode : Mode) : Except Err Bytes :=
 def writeAt (file : Bytes) (off : Nat) (data : Bytes) : Bytes :=
   file.take off ++ List.replicate (off - file.length) 0 ++ data ++ file.drop (off + data.length)
 
+/-- what the COMPILED code runs for `writeAt` (`writeAt_eq_compiled` below, a `csimp` lemma: the
+kernel-checked equation is the only thing the compiler is given).  A write at the end of the file -
+the only one `write` ever issues, its write position being the file length - is one append instead
+of three copies of the whole file, so a history of some thousand writes (one index bucket filled
+until its sorted section passes the 64 KiB alignment boundary of the `.idx` layout) stays cheap in
+the driver.  Every other offset runs the definition. -/
+def writeAtCompiled (file : Bytes) (off : Nat) (data : Bytes) : Bytes :=
+  if off = file.length then file ++ data
+  else file.take off ++ List.replicate (off - file.length) 0 ++ data ++ file.drop (off + data.length)
+
+@[csimp] theorem writeAt_eq_compiled : @writeAt = @writeAtCompiled := by
+  funext file off data
+  unfold writeAt writeAtCompiled
+  split
+  · next h =>
+    subst h
+    rw [List.take_length, Nat.sub_self, List.replicate_zero, List.append_nil,
+      List.drop_eq_nil_of_le (Nat.le_add_right _ _), List.append_nil]
+  · rfl
+
 /-- `create_archive` + `open_archive` for archive 0 when the manager has no archive 0 open:
 the file is created empty if it does not exist; if it exists it is kept (`keep`, the code now) or
 truncated (pinned `File::create`); the mapping and the write position are its length. -/
